@@ -62,7 +62,8 @@ def lit_bounds(bs):
     for lb, ub in bs:
         if (lb is not None and lb[0] != 'lit') or ub[0] != 'lit':
             return None
-        out.append((0 if lb is None else lb[2], ub[2]))
+        # (a bound that is not a whole number is rounded half to even)
+        out.append((0 if lb is None else int(round(lb[2])), int(round(ub[2]))))
     return out
 
 
@@ -142,6 +143,24 @@ def collect(prog, target_id):
                 routine = p['name']
                 break
     names.scalars.update({k: v for k, v in consts.items() if v})
+    if routine not in (None, '_main'):
+        # a module-level CONST that the routine re-defines *further down*: in
+        # front of that CONST statement the program still means the outer one,
+        # while the debugger knows the routine's constants as a set - not a
+        # question this check asks
+        def const_names(body, out):
+            for s_ in body:
+                if s_['k'] == 'const':
+                    out.add(s_['name'])
+                for sub in sub_bodies(s_):
+                    const_names(sub, out)
+        later = set()
+        for p_ in prog.get('procs', []):
+            if p_['name'] == routine:
+                const_names(p_['body'], later)
+        for n_ in later:
+            if n_ in names.scalars and n_ in consts and n_ not in loc.scalars:
+                del names.scalars[n_]
     names.scalars.update(shared.scalars)
     names.arrays.update(shared.arrays)
     names.records.update(shared.records)
